@@ -162,7 +162,12 @@ static void sc_index(int variant) {
 		b = lzma_index_init(&FA); TRYP(b, "lzma_index_init"); for (int i = 0; i < 4; i++) TRY(lzma_index_append(b, &FA, 12, 5), LZMA_OK, LZMA_OK);
 		uint64_t da = idx_digest(a), db = idx_digest(b);
 		lzma_ret r = lzma_index_cat(a, b, &FA);
-		if (r == LZMA_OK) b = NULL; else { if (idx_digest(a) != da || idx_digest(b) != db) MISBEHAVE("failed lzma_index_cat modified its arguments"); if (chk(r, LZMA_OK, LZMA_OK, "lzma_index_cat")) goto out; }
+		if (r == LZMA_OK) b = NULL; else { if (idx_digest(a) != da || idx_digest(b) != db) MISBEHAVE("failed lzma_index_cat modified its arguments");
+			// hidden state too: changing the Check of the last Stream afterwards must give what it gives without the failed call
+			{ long fa = fa_fail_a, fb = fa_fail_b, ff = fa_fail_from; fa_fail_a = fa_fail_b = fa_fail_from = -1; lzma_stream_flags s2 = sf; s2.check = LZMA_CHECK_SHA256;
+			  if (lzma_index_stream_flags(a, &s2) == LZMA_OK && lzma_index_checks(a) != (1u << LZMA_CHECK_SHA256)) MISBEHAVE("after a failed lzma_index_cat and a new lzma_index_stream_flags, lzma_index_checks() = %#x, expected %#x", lzma_index_checks(a), 1u << LZMA_CHECK_SHA256);
+			  fa_fail_a = fa; fa_fail_b = fb; fa_fail_from = ff; }
+			if (chk(r, LZMA_OK, LZMA_OK, "lzma_index_cat")) goto out; }
 		TRY(lzma_index_append(a, &FA, 16, 9), LZMA_OK, LZMA_OK);
 	}
 	if (variant >= 3) { uint64_t da = idx_digest(a); c = lzma_index_dup(a, &FA); if (idx_digest(a) != da) MISBEHAVE("lzma_index_dup changed its source"); TRYP(c, "lzma_index_dup"); if (idx_digest(c) != da) MISBEHAVE("lzma_index_dup result differs from the source"); TRY(lzma_index_append(c, &FA, 8, 1), LZMA_OK, LZMA_OK); }
@@ -202,6 +207,12 @@ static void sc_filters(int variant) {
 		r = lzma_filter_flags_decode(&f2, &FA, fb, &ip, op); if (r != LZMA_OK && f2.options != NULL) MISBEHAVE("failed lzma_filter_flags_decode left options non-NULL");
 		if (!chk(r, LZMA_OK, LZMA_OK, "lzma_filter_flags_decode")) fa_free(NULL, f2.options);
 		lzma_filter f3 = { LZMA_FILTER_LZMA2, NULL }; unsigned char pr = 8; r = lzma_properties_decode(&f3, &FA, &pr, 1); if (!chk(r, LZMA_OK, LZMA_OK, "lzma_properties_decode")) fa_free(NULL, f3.options);
+	} else if (variant == 8 || variant == 9) {	// one handle, raw LZMA2 encoder with one match finder, then (no lzma_end) another with the same dictionary size: 8 = bt3 -> bt4 (other hash size), 9 = hc4 -> bt4 (other tree size)
+		lzma_stream s = LZMA_STREAM_INIT; s.allocator = &FA; lzma_options_lzma oa = o_small, ob = o_small; oa.mf = variant == 8 ? LZMA_MF_BT3 : LZMA_MF_HC4; ob.mf = LZMA_MF_BT4; oa.nice_len = ob.nice_len = 32; oa.mode = ob.mode = LZMA_MODE_NORMAL; if (variant == 9) oa.mode = LZMA_MODE_FAST;
+		lzma_filter fa_[2] = { { LZMA_FILTER_LZMA2, &oa }, { LZMA_VLI_UNKNOWN, NULL } }, fb_[2] = { { LZMA_FILTER_LZMA2, &ob }, { LZMA_VLI_UNKNOWN, NULL } };
+		for (int pass = 0; pass < 2; pass++) { lzma_ret r = lzma_raw_encoder(&s, pass ? fb_ : fa_); if (r != LZMA_OK) { if (!(r == LZMA_MEM_ERROR && fa_failed)) MISBEHAVE("lzma_raw_encoder returned %d", r); else if (sc_status == 0) sc_status = 1; continue; }
+			lzma_ret c = pump(&s, plain, 2048, 0, LZMA_FINISH); if (c == LZMA_MEM_ERROR && fa_failed) { if (sc_status == 0) sc_status = 1; continue; } if (c != LZMA_STREAM_END) MISBEHAVE("raw encoder returned %d", c); }
+		lzma_end(&s);
 	} else if (variant == 7) {	// single-call buffer functions: nothing may stay allocated, whatever fails
 		static unsigned char cb[4096], db[512]; size_t cp = 0, ip = 0, dp = 0;
 		lzma_ret r = lzma_raw_buffer_encode(ch_three, &FA, plain, 300, cb, &cp, sizeof cb);
@@ -292,7 +303,7 @@ static void build_table(int thorough) {
 	for (int k = 0; k < K_NKINDS; k++) { snprintf(nm, sizeof nm, "init:%s", KN[k]); add(nm, 1, k, 0, 0, 0); }
 	for (int k = 0; k < K_NKINDS; k++) { snprintf(nm, sizeof nm, "job:%s", KN[k]); add(nm, 2, k, 0, 0, 0); snprintf(nm, sizeof nm, "job-7byte-input:%s", KN[k]); add(nm, 2, k, 7, 0, 0); }
 	for (int v = 0; v < 5; v++) { snprintf(nm, sizeof nm, "index:variant%d(%s)", v, v == 0 ? "append3" : v == 1 ? "append600" : v == 2 ? "cat" : v == 3 ? "cat+dup" : "cat+dup+encode/decode"); add(nm, 3, v, 0, 0, 0); }
-	add("filters_copy", 4, 0, 0, 0, 0); add("str_to/from/list_filters", 4, 1, 0, 0, 0); add("block_header/filter_flags/properties decode", 4, 2, 0, 0, 0); add("filters_update after SYNC_FLUSH", 4, 3, 0, 0, 0); add("filters_update after FULL_FLUSH", 4, 4, 0, 0, 0); add("single-call raw/stream/block/easy buffer functions", 4, 7, 0, 0, 0); add("filters_update before any data", 4, 5, 0, 0, 0); add("two filters_update calls before any data", 4, 6, 0, 0, 0);
+	add("filters_copy", 4, 0, 0, 0, 0); add("str_to/from/list_filters", 4, 1, 0, 0, 0); add("block_header/filter_flags/properties decode", 4, 2, 0, 0, 0); add("filters_update after SYNC_FLUSH", 4, 3, 0, 0, 0); add("filters_update after FULL_FLUSH", 4, 4, 0, 0, 0); add("single-call raw/stream/block/easy buffer functions", 4, 7, 0, 0, 0); add("raw encoder bt3 then bt4 on one handle", 4, 8, 0, 0, 0); add("raw encoder hc4 then bt4 on one handle", 4, 9, 0, 0, 0); add("filters_update before any data", 4, 5, 0, 0, 0); add("two filters_update calls before any data", 4, 6, 0, 0, 0);
 	// histories on one handle without lzma_end: all ordered pairs (thorough: triples over a core set), three kinds of activity in between
 	for (int a = 0; a < K_NKINDS; a++) for (int b = 0; b < K_NKINDS; b++) for (int cb = 0; cb < 3; cb++) { snprintf(nm, sizeof nm, "history:%s->%s(%s)", KN[a], KN[b], cb == 0 ? "no coding" : cb == 1 ? "full job" : "partial job"); add(nm, 5, a, b, -1, cb); }
 	static const int core[] = { K_ALONE_DEC_A, K_ALONE_DEC_B, K_STREAM_DEC, K_RAW_DEC, K_RAW_DEC_BIG, K_EASY_ENC, K_INDEX_DEC, K_LZIP_DEC };
